@@ -122,6 +122,47 @@ def node_leaves(node, acc=None):
     return acc
 
 
+GUARD = 777.25      # value stored in the part of a buffer that lies outside a view (must never change)
+
+
+def laid_out(t, layout):
+    """(tensor with the values of `t` but the requested memory layout, underlying buffer or None).
+    layouts: contig | slice (inner slice of a buffer that is wider in the last dim) | step (every second element of the
+    last dim of a wider buffer) | perm (permuted view of a transposed buffer, rank >= 2) | bslice (slice along the first
+    dim of a longer buffer, rank >= 1)"""
+    if layout in (None, "contig") or t.dim() == 0:
+        return t.clone(), None
+    if layout == "slice":
+        buf = torch.full(tuple(t.shape[:-1]) + (t.shape[-1] + 2,), GUARD, dtype=t.dtype)
+        buf[..., 1:-1] = t
+        return buf[..., 1:-1], buf
+    if layout == "step":
+        buf = torch.full(tuple(t.shape[:-1]) + (2 * t.shape[-1],), GUARD, dtype=t.dtype)
+        buf[..., ::2] = t
+        return buf[..., ::2], buf
+    if layout == "perm" and t.dim() >= 2:
+        buf = t.transpose(0, -1).contiguous()
+        return buf.transpose(0, -1), None
+    if layout == "bslice" and t.dim() >= 1:
+        buf = torch.full((t.shape[0] + 2,) + tuple(t.shape[1:]), GUARD, dtype=t.dtype)
+        buf[1:-1] = t
+        return buf[1:-1], buf
+    return t.clone(), None
+
+
+def guard_ok(buf, layout):
+    """storage outside the view still holds the guard value"""
+    if buf is None:
+        return True
+    if layout == "slice":
+        return bool((buf[..., 0] == GUARD).all()) and bool((buf[..., -1] == GUARD).all())
+    if layout == "step":
+        return bool((buf[..., 1::2] == GUARD).all())
+    if layout == "bslice":
+        return bool((buf[0] == GUARD).all()) and bool((buf[-1] == GUARD).all())
+    return True
+
+
 class ProgModel(nn.Module):
     """the user's model: parameters p0, p1, … (registration order = named_parameters order = param_groups order);
     constant leaves arrive through `input` (single tensor, tuple or dict)"""
@@ -133,10 +174,19 @@ class ProgModel(nn.Module):
         self.case = case
         self.leaf_param = {}
         self.leaf_input = {}
+        self.param_bufs = []
         ip = ii = 0
         for li, lf in enumerate(case["leaves"]):
             if lf["role"] == "param":
                 t = torch.tensor(lf["values"], dtype=torch.float64).to(D).reshape(tuple(lf["lshape"]) + ((tdim(lf["ty"]),) if not lf.get("zerodim") else ()))
+                if lf.get("view") and dtype is None:      # the parameter's data is a view into a larger buffer of the caller
+                    if t.dim() == 0:
+                        buf = torch.full((3,), GUARD, dtype=t.dtype); buf[1] = t
+                        t, lay = buf[1], "zd"
+                    else:
+                        lay = lf["view"]
+                        t, buf = laid_out(t, lay)
+                    self.param_bufs.append((f"p{ip}", buf, lay))
                 if lf["ty"][0] in ("G", "A"):
                     prm = pp.Parameter(wrap_leaf(lf["ty"], t), requires_grad=lf["rg"])
                 else:
@@ -172,15 +222,21 @@ class ProgModel(nn.Module):
         return outs[0] if (len(outs) == 1 and not self.case.get("tuple_out")) else tuple(outs)
 
 
-def make_inputs(case, dtype=None):
+def make_inputs(case, dtype=None, with_bufs=False):
     """constant leaves as tensors / LieTensors in the case's dtype; packed the way the case passes `input`"""
     D = U.dt(case["dtype"]) if dtype is None else dtype
     ins = []
+    bufs = []
     for lf in case["leaves"]:
         if lf["role"] != "input":
             continue
         t = torch.tensor(lf["values"], dtype=torch.float64).to(D).reshape(tuple(lf["lshape"]) + (tdim(lf["ty"]),))
+        lay = lf.get("layout") if dtype is None else None
+        t, buf = laid_out(t, lay)
+        bufs.append((buf, lay))
         ins.append(wrap_leaf(lf["ty"], t))
+    if with_bufs:
+        return ins, bufs
     return ins
 
 
@@ -214,8 +270,29 @@ def gen_trans(rng):
     return [m * x for x in common.rand_dir(rng, 3)]
 
 
-def gen_leaf_item(rng, ty):
+def gen_leaf_item(rng, ty, wide=False):
     k = ty[0]
+    if wide and k in ("G", "A"):
+        # extreme-but-valid elements: rotation angle up to pi - 1e-3, translations up to 1e3, log-scale up to +-12
+        g = ty[1]
+        th = rng.choice([math.pi - 1e-3, 3.0, 2.5, 1e-12, rng.uniform(0, 3.1)])
+        d_ = common.rand_dir(rng, 3)
+        phi = [th * x for x in d_]
+        tr = [rng.choice([1e3, 50.0, 1e-6, 0.0]) * x for x in common.rand_dir(rng, 3)]
+        sg = rng.choice([-12.0, 12.0, -5.0, 5.0, 1e-9])
+        if k == "A":
+            return (tr if g in ("SE3", "Sim3") else []) + phi + ([sg] if g in ("RxSO3", "Sim3") else [])
+        s_ = math.sin(th / 2)
+        q = [d_[0] * s_, d_[1] * s_, d_[2] * s_, math.cos(th / 2)]
+        if rng.random() < 0.5:
+            q = [-x for x in q]
+        return (tr if g in ("SE3", "Sim3") else []) + q + ([math.exp(sg)] if g in ("RxSO3", "Sim3") else [])
+    if wide and k == "E":
+        m = rng.choice([1e3, 1e-6, 30.0])
+        v = [m * x for x in common.rand_dir(rng, ty[1])]
+        if ty[1] == 4:
+            v[3] = rng.choice([1.0, 0.0, -3.0])
+        return v
     if k == "A":
         g = ty[1]
         out = []
@@ -268,8 +345,9 @@ class Builder:
     """bottom-up chains: start at a parameter leaf and wrap it in operators until a residual type is reached;
     side operands are other parameters (preferred, so that residuals mix parameters) or constant inputs"""
 
-    def __init__(self, rng, bshape, param_types, frozen):
+    def __init__(self, rng, bshape, param_types, frozen, wide=0.0):
         self.rng = rng
+        self.wide = wide
         self.bshape = list(bshape)
         self.leaves = []
         for ty, fr in zip(param_types, frozen):
@@ -281,7 +359,7 @@ class Builder:
         zerodim = ty[0] == "S" and role == "param" and rng.random() < 0.5
         lshape = [] if zerodim else sub_shape(rng, self.bshape)
         n = int(math.prod(lshape))
-        vals = [gen_leaf_item(rng, ty) for _ in range(n)]
+        vals = [gen_leaf_item(rng, ty, wide=rng.random() < self.wide) for _ in range(n)]
         lf = {"role": role, "ty": list(ty), "lshape": lshape, "values": vals, "rg": bool(rg)}
         if zerodim:
             lf["zerodim"] = True
